@@ -82,8 +82,21 @@ func OpenMem(tag string) (*Exec, error) {
 	return OpenPath(path)
 }
 
-func OpenPath(path string) (*Exec, error) {
-	db, err := redka.Open(path, nil)
+func OpenPath(path string) (*Exec, error) { return OpenPathDriver(path, "") }
+
+// OpenMemDriver opens a fresh in-memory database through the named database/sql driver.
+func OpenMemDriver(tag, driverName string) (*Exec, error) {
+	n := dbCounter.Add(1)
+	path := fmt.Sprintf("file:/hx_%s_%d_%d.db?vfs=memdb", tag, time.Now().UnixNano(), n)
+	return OpenPathDriver(path, driverName)
+}
+
+func OpenPathDriver(path, driverName string) (*Exec, error) {
+	var opts *redka.Options
+	if driverName != "" {
+		opts = &redka.Options{DriverName: driverName}
+	}
+	db, err := redka.Open(path, opts)
 	if err != nil {
 		return nil, err
 	}
@@ -247,6 +260,15 @@ func optI(v sql.NullInt64) string {
 		return "_"
 	}
 	return strconv.FormatInt(v.Int64, 10)
+}
+
+// DumpRaw is Dump without the canonicalisation of times (for comparing two
+// states of one database literally).
+func (x *Exec) DumpRaw() (string, error) {
+	w, r := x.wins, x.rel
+	x.wins, x.rel = nil, map[int64]int64{}
+	defer func() { x.wins, x.rel = w, r }()
+	return x.Dump()
 }
 
 // Dump reads the six tables through the independent connection and renders
